@@ -59,3 +59,9 @@ Definition expected_mutable_fields : list string := [
   "BipBitcoinCashConf.m_use_legacy_addr"; "BipLitecoinConf.m_use_alt_key_net_ver";
   "BipLitecoinConf.m_use_depr_addr"; "Sha256.handle"; "Substrate.m_priv_key"
 ].
+
+(* functions known to mutate a parameter in place; every call site must hand them a newly created
+   object (checked on the generated call-site table) *)
+Definition expected_param_mutators : list (string * string) := [
+  ("Bech32EncoderBase._EncodeBech32", "data")
+].
